@@ -27,7 +27,7 @@ from harness.common import Ctx, Finding, SearchResult, Stream, exc_enum, hx
 PROP = 'C02'
 
 # operator spellings in the order of `Tranp.Ladder.opNames` (code = index)
-OP_NAMES = ['or', 'and', 'not', '<', '>', '==', '>=', '<=', '!=', 'in', 'not in', 'is', 'is not', '|', '^', '&', '<<', '>>', '+', '-', '*', '/', '%', '~', '//', '@', '**', '<>']
+OP_NAMES = ['or', 'and', 'not', '<', '>', '==', '>=', '<=', '!=', 'in', 'not in', 'is', 'is not', '|', '^', '&', '<<', '>>', '+', '-', '*', '/', '%', '~', '//', '@', '**', '<>', 'if', 'else', 'lambda', ':', ',']
 # the grammar's ladder, loosest first (used only to *generate* texts; never as an oracle)
 GEN_LEVELS: list[tuple[str, list[str]]] = [
 	('bin', ['or']), ('bin', ['and']), ('pre', ['not']),
@@ -38,7 +38,8 @@ GEN_LEVELS: list[tuple[str, list[str]]] = [
 KEEP_KINDS = {'NAME', 'DEC_NUMBER', 'FLOAT_NUMBER', 'HEX_NUMBER', 'STRING'}
 # tree names of the ladder fragment the reference parser covers (calls, displays, ternaries … are search-only)
 FRAGMENT_TAGS = {'or_test', 'and_test', 'not_test', 'comparison', 'comp_op', 'comp_in', 'comp_not_in', 'comp_is', 'comp_is_not', 'or_expr', 'xor_expr',
-	'and_expr', 'shift_expr', 'sum', 'term', 'factor', 'group_expr', 'var', 'name', 'number', 'string', 'const_true', 'const_false', 'const_none'}
+	'and_expr', 'shift_expr', 'sum', 'term', 'factor', 'group_expr', 'var', 'name', 'number', 'string', 'const_true', 'const_false', 'const_none',
+	'ternary_test', 'lambdadef', 'lambdaparams'}
 
 
 # ---------------------------------------------------------------------------------------------
@@ -69,12 +70,12 @@ def real_parse(app: common.MemApp, text: str) -> Any:
 	return app.resolve(SyntaxParser)(app.main)
 
 
-def in_fragment(entry: Any) -> bool:
+def in_fragment(entry: Any, parent: str = '') -> bool:
 	if entry.is_empty:
-		return False
+		return parent == 'lambdadef'  # `lambda: x` — the absent [lambdaparams]
 	if not entry.has_child:
 		return True
-	return entry.name in FRAGMENT_TAGS and all(in_fragment(c) for c in entry.children)
+	return entry.name in FRAGMENT_TAGS and all(in_fragment(c, entry.name) for c in entry.children)
 
 
 def canon_entry_sexp(entry: Any) -> str:
@@ -126,6 +127,10 @@ def gen_optree(rng: random.Random, depth: int, ops_extra: bool) -> Any:
 	r = rng.random()
 	if r < 0.08:
 		return ('par', gen_optree(rng, depth - 1, ops_extra))
+	if r < 0.2:
+		return ('tern', gen_optree(rng, depth - 1, ops_extra), gen_optree(rng, depth - 1, ops_extra), gen_optree(rng, depth - 1, ops_extra))
+	if r < 0.28:
+		return ('lam', [rng.choice(['x', 'y', 'nota', 'p1', '_']) for _ in range(rng.choice([0, 1, 1, 2, 3]))], gen_optree(rng, depth - 1, ops_extra))
 	lv = rng.randrange(len(GEN_LEVELS))
 	kind, ops = GEN_LEVELS[lv]
 	op = rng.choice(ops)
@@ -138,6 +143,8 @@ def gen_optree(rng: random.Random, depth: int, ops_extra: bool) -> Any:
 
 
 def level_of(t: Any) -> int:
+	if t[0] in ('tern', 'lam'):
+		return -1  # the rule `expression`, looser than `or`
 	return t[1] if t[0] in ('bin', 'pre') else 99
 
 
@@ -154,6 +161,13 @@ def print_optree(rng: random.Random, t: Any, mode: str, p_wrap: float, sp: str) 
 			return t[1]
 		if t[0] == 'par':
 			return f'({go(t[1])})'
+		if t[0] == 'tern':
+			_, b, c, e = t
+			return f'{wrap(go(b), level_of(b) < 0)} if {wrap(go(c), level_of(c) < 0)} else {wrap(go(e), False)}'
+		if t[0] == 'lam':
+			_, ps, body = t
+			head = 'lambda' + (' ' + (',' + rng.choice(['', ' '])).join(ps) if ps else '') + rng.choice(['', ' ']) + ':'
+			return f'{head} {wrap(go(body), False)}'
 		if t[0] == 'pre':
 			_, lv, op, e = t
 			inner = wrap(go(e), level_of(e) < lv)
@@ -179,7 +193,7 @@ def mutate_text(rng: random.Random, text: str) -> str:
 	if r < 0.3:
 		del toks[k]
 	elif r < 0.55:
-		toks.insert(k, rng.choice(['not', '==', '(', ')', '+', 'in', 'is', 'a', 'or', '~']))
+		toks.insert(k, rng.choice(['not', '==', '(', ')', '+', 'in', 'is', 'a', 'or', '~', 'if', 'else', ':', 'lambda']))
 	elif r < 0.8:
 		toks[k] = rng.choice(['not', 'is', 'in', ')', '(', '*', 'and', 'b'])
 	else:
@@ -195,7 +209,7 @@ def keyword_split_hazard(text: str) -> bool:
 	"""lark's lexer has no word boundary after keyword terminals: where an operator is expected `True andy` is read as `True and y`.
 	CPython rejects such texts (two operands in a row), so they are outside C02's language; the reference lexer does not model it.
 	The operand/operator position is tracked as lark's contextual lexer does (keywords are names where an operand is expected)."""
-	operand, not_ok = True, True
+	operand, not_ok, lam_ok = True, True, True
 	toks = TOKEN_RE.findall(text)
 	skip = False
 	for i, tok in enumerate(toks):
@@ -205,22 +219,29 @@ def keyword_split_hazard(text: str) -> bool:
 		is_word = tok[0].isalpha() or tok[0] == '_'
 		nxt = toks[i + 1] if i + 1 < len(toks) else ''
 		if not operand and ((tok == 'is' and nxt == 'not') or (tok == 'not' and nxt == 'in')):
-			skip, operand, not_ok = True, True, False
+			skip, operand, not_ok, lam_ok = True, True, False, False
 			continue
 		if not operand and tok == 'not' and nxt.startswith('in'):
 			# after the `not` of `not in` only the terminal IN is acceptable: `not inx` is read as `not in x`
 			return True
 		if operand:
 			if tok == 'not' and not_ok:
+				lam_ok = False
+				continue
+			if tok == 'lambda' and lam_ok:
+				not_ok, lam_ok = False, False  # parameters follow (names), then `:`
+				continue
+			if tok == ':':
+				not_ok, lam_ok = True, True
 				continue
 			if is_word or tok[0].isdigit() or tok[0] in '\'"':
 				operand = False
 			elif tok == '(':
-				not_ok = True
+				not_ok, lam_ok = True, True
 			elif tok == ')':
 				operand = False
 			else:
-				not_ok = False
+				not_ok, lam_ok = False, False
 		else:
 			if is_word and tok not in KEYWORD_OPS:
 				if tok.startswith(KEYWORD_OPS):
@@ -229,7 +250,8 @@ def keyword_split_hazard(text: str) -> bool:
 			if tok == ')':
 				continue
 			operand = True
-			not_ok = tok in ('or', 'and', '(')
+			not_ok = tok in ('or', 'and', '(', 'if', 'else', ':')
+			lam_ok = tok in ('(', 'else', ':')
 	return False
 
 
@@ -269,7 +291,7 @@ def stream_lark_vs_rd(ctx: Ctx) -> Stream:
 		cases.append(({'text': text, 'kind': kind}, [f'rd\t{hx(text)}'], [real]))
 	st = common.correspond('lark-vs-rd', cases, 'ladder')
 	st.histogram = dict(hist)
-	st.note = ('operator texts over the ladder (all levels, `<>`, unsupported `//` `**` `@`, names that extend keywords, numbers, strings, constants; '
+	st.note = ('texts of `expression`: operators of all ladder levels, conditional expressions, lambdas, parentheses around any of them (`<>`, unsupported `//` `**` `@`, names that extend keywords, numbers, strings, constants; '
 		'minimal / random / redundant parentheses, varied spacing) plus token-level mutations; real = lark tree through the Entry view, model = rdParse(lex text)')
 	return st
 
@@ -299,6 +321,10 @@ def py_group_sexp(n: ast.AST) -> str:
 		return f'(L {PY_OPS[type(n.op)]}' + ''.join(' ' + py_group_sexp(v) for v in n.values) + ')'
 	if isinstance(n, ast.Compare):
 		return f'(C {py_group_sexp(n.left)}' + ''.join(f" {PY_OPS[type(o)].replace(' ', '_')} {py_group_sexp(c)}" for o, c in zip(n.ops, n.comparators)) + ')'
+	if isinstance(n, ast.IfExp):
+		return f'(I {py_group_sexp(n.test)} {py_group_sexp(n.body)} {py_group_sexp(n.orelse)})'
+	if isinstance(n, ast.Lambda):
+		return '(F [' + ' '.join(a.arg for a in n.args.args) + f'] {py_group_sexp(n.body)})'
 	raise ValueError(type(n).__name__)
 
 
@@ -313,7 +339,16 @@ def gen_prec_expr(rng: random.Random, depth: int, counter: list[int]) -> str:
 	r = rng.random()
 	if r < 0.1:
 		return f'( p {gen_prec_expr(rng, depth - 1, counter)} )'
-	if r < 0.3:
+	if r < 0.19:
+		return f'( i {gen_prec_expr(rng, depth - 1, counter)} {gen_prec_expr(rng, depth - 1, counter)} {gen_prec_expr(rng, depth - 1, counter)} )'
+	if r < 0.25:
+		k = rng.choice([0, 1, 1, 2, 3])
+		ps = []
+		for _ in range(k):
+			counter[0] += 1
+			ps.append(f'a{counter[0]}')
+		return f"( l {k} {' '.join(ps)}{' ' if ps else ''}{gen_prec_expr(rng, depth - 1, counter)} )"
+	if r < 0.4:
 		_, op = rng.choice(SUPPORTED_PRE)
 		return f'( u {OP_NAMES.index(op)} {gen_prec_expr(rng, depth - 1, counter)} )'
 	_, op = rng.choice(SUPPORTED_BIN)
@@ -847,6 +882,40 @@ def stream_classify(ctx: Ctx) -> Stream:
 	st.histogram = dict(hist)
 	st.note = ('generated nests of classes / functions / decorators / assignments / imports / calls / annotations plus hand-written programs that reach every '
 		'multi-class tag; real = type(nodes.by(path)).__name__ for every path of full_pathfy, model = first-match over the generated resolver table')
+	return st
+
+
+def stream_call_args(ctx: Ctx) -> Stream:
+	"""argument lists: tranp's `FuncCall.arguments` (label / unpacking of each Argument node) vs the model's `readArgs`"""
+	rng = ctx.sub_rng('call-args')
+	app = common.MemApp(ctx.tmpdir())
+	cases = []
+	hist: Counter[str] = Counter()
+	for i in range(ctx.scale(150, 2500)):
+		g = Gen(rng, 1)
+		n_pos, n_kw = rng.choice([0, 1, 2, 3]), rng.choice([0, 0, 1, 2])
+		parts = [g.expr(1) for _ in range(n_pos)] + [f'{rng.choice(["key", "sep", "n", "self", "lambda_"])}={g.expr(1)}' for _ in range(n_kw)]
+		rng.shuffle(parts)  # grammar.lark lets named and plain arguments mix freely (CPython does not; irrelevant for this reading)
+		if rng.random() < 0.3:
+			parts.append(f'*{g.name()}')
+		if rng.random() < 0.25:
+			parts.append(f'**{g.name()}')
+		src = f"{g.name()}({', '.join(parts)})\n"
+		try:
+			ep = app.entrypoint(src)
+			call = ep.statements[0]
+			real = 'ok ' + ','.join(('star' if a.unpacking == '*' else 'dstar' if a.unpacking == '**' else f'kw:{a.label.tokens}' if node_class(a.label) != 'Empty' else 'pos') for a in call.arguments)
+			root = real_parse(app, src)
+			args_entries = [c for c in root.children[0].children if not c.is_empty and c.name == 'arguments']
+			sexp = trees.entry_sexp(args_entries[0]) if args_entries else '( arguments )'
+		except Exception as e:  # noqa: BLE001
+			hist[f'rejected:{exc_enum(e)}'] += 1
+			continue
+		hist[f'args={len(parts)}'] += 1
+		cases.append(({'source': src}, [f'args\t{sexp}'], [real]))
+	st = common.correspond('call-args', cases, 'ladder')
+	st.histogram = dict(hist)
+	st.note = 'calls with 0–7 arguments (plain, named, `*`, `**`, shuffled plain/named); real = (unpacking, label) of each FuncCall.arguments node, model = readArgs of the `arguments` subtree'
 	return st
 
 
@@ -1719,6 +1788,12 @@ STATEMENTS = {
 	'group': 'for every operator term e (any extra parentheses) toAst <$> rdParse ladder (printMin pyTable e) = some (astOf e): left-nested BinOp, n-ary BoolOp, Compare chains, UnaryOp',
 	'group_tree': 'the tree the reference parser returns is the lark shape of the minimally parenthesised term',
 	'group_sound': 'whatever the ladder parser reads over the common operators is a CPython normal form with that text (nothing CPython groups differently is accepted)',
+	'ladder_keywords_free': 'if / else / lambda are operators of no level of the generated ladder',
+	'group_test': 'for every term of `expression` — operator terms closed under `body if test else orelse`, `lambda params: body` and parentheses around any expression, with any redundant parentheses — toAst <$> rdParseT ladder (printMinT pyTable t) = some (astOfT t): IfExp(test, body, orelse), Lambda(params, body) and the operator readings',
+	'group_test_tree': 'the tree returned is lark\'s shape (ternary_test[body, test, orelse], lambdadef[lambdaparams | _, body]) of the minimally parenthesised term',
+	'prefix_levels / prefix_grouping': '`not` (level 2) is looser than every comparison (3): `not a == b` = not (a == b), `(not a) == b` needs parentheses; `+ - ~` (10) are tighter than every infix operator: `-a * b` = (-a) * b',
+	'compare_chain': 'a bare chain first o1 e1 … on en of comparison operators (incl. the two-word `not in`, `is not`) reads as one Compare(first, [o1 … on], [e1 … en])',
+	'call_arguments': 'tranp\'s reading of the `arguments` subtree returns kinds (plain / named / * / **), labels, values and order; CPython\'s args and keywords are its two ordered sublists',
 	'classify_owners_modelled': 'every match_feature reachable from the generated resolver table is modelled',
 	'classify_rows': 'candidate orders of function_def / name / var / class_def / getattr in the generated table are the ones the decision functions hard-code',
 	'classify_function_def / classify_name / classify_var': 'first-match over the generated row computes funcClass / nameClass / varClass of the extracted features',
@@ -1738,16 +1813,16 @@ def run(ctx: Ctx) -> int:
 	streams: list[Stream] = []
 	if proof.built:
 		with ctx.timed('correspondence'):
-			streams = [stream_lark_vs_rd(ctx), stream_pygroup(ctx), stream_classify(ctx)]
+			streams = [stream_lark_vs_rd(ctx), stream_pygroup(ctx), stream_classify(ctx), stream_call_args(ctx)]
 	with ctx.timed('search'):
 		searches = [search_canon(ctx)]
 	return common.finish(ctx, proof, streams, searches,
 		translate_ok=tr_ok, translate_msg=tr_msg,
 		statements=STATEMENTS,
 		partial={
-			'proved': 'operator precedence/associativity/chaining, unary and boolean grouping over the ladder read from grammar.lark (for all terms); first-match classification logic and its agreement with Python scoping under stated conventions',
-			'correspondence_only': 'lark\'s LALR result equals the reference parser on the ladder (lark-vs-rd); match_feature models (classify); pyTable/astOf are CPython\'s (pygroup)',
-			'search_only': 'ternaries, lambdas, calls, attribute/index/slice chains, literals, displays, comprehensions, statement nesting, parameters, decorators, class bases (canon equality against CPython ast)',
+			'proved': 'operator precedence/associativity/chaining, unary and boolean grouping, conditional expressions and lambdas (rule `expression` with parentheses re-entering it) over the ladder read from grammar.lark, for all terms; reading of call argument lists; first-match classification logic and its agreement with Python scoping under stated conventions',
+			'correspondence_only': 'lark\'s LALR result equals the reference parser on `expression` without trailers/displays (lark-vs-rd); match_feature models (classify); Argument label/unpacking (call-args); pyTable/astOfT are CPython\'s (pygroup)',
+			'search_only': 'attribute/index/slice chains and calls as operands (trailers), literals, list/tuple/dict displays, comprehensions, statement nesting, parameters, decorators, class bases (canon equality against CPython ast)',
 		},
 		assumptions=[
 			'lark returns a derivation of grammar.lark (LALR construction and PythonIndenter are not modelled)',
